@@ -63,6 +63,10 @@ def shards(tier, seed):
     for i in range(nasan):
         out.append({"kind": "cast", "flavour": "asan", "part": i, "parts": nasan, "asan": True,
                     "rounds": 1 if tier == "quick" else 2})
+    # the operation catalogue (and the poison differential) on the sanitizer build too
+    for i in range(1 if tier == "quick" else 4):
+        out.append({"kind": "poison", "flavour": "asan", "asan": True, "part": 50 + i,
+                    "per_op": 4 if tier == "quick" else 40})
     return out
 
 
@@ -450,6 +454,8 @@ def run_poison_case(case, ctx, poison):
         finally:
             poison.byte = None
     ctx.count("poison_runs", 2)
+    if case.get("asan"):
+        ctx.count("asan_cases")
     sig = (case["op"], case.get("spelling", ""), facts["shapes"], tuple(sorted(case["kw"])))
     ctx.evaluated(sig, True)
     if outcomes[0] != "ok":
@@ -479,6 +485,8 @@ def run_poison(spec, ctx):
                     gen.rng = g.rng
                 case = catrun.gen_case(gen, name)
                 case["kind"] = "poison"
+                if spec.get("asan"):
+                    case["asan"] = True
                 if i == 0 and spec["part"] == 0 and name in ("multiply", "diff", "concatenate"):
                     ctx.sample(case)
                 ctx.run_case(case, lambda c: run_poison_case(c, ctx, poison))
